@@ -40,13 +40,29 @@ func TestVerifC05Uploader(t *testing.T) {
 		files := vgen.CountFiles(t, cfg, ends, vgen.FileOpts{StrictOS: true, AllowBad: true, MaxFiles: 5, OnlyKnown: true}, &markers)
 		mode := rapid.SampledFrom([]string{"on 2000-01-01", "local", "on"}).Draw(t, "mode")
 		status := rapid.SampledFrom([]int{200, 200, 500, 400}).Draw(t, "status")
+		// a lock left behind in upload/ by an uploader that died days ago: a plain file, or something that cannot
+		// be removed (a non-empty directory of that name)
+		oldLock := rapid.SampledFrom([]string{"", "", "file", "dir"}).Draw(t, "oldLock")
+		lockWeek := ends[rapid.IntRange(0, len(ends)-1).Draw(t, "lockWeek")].Format("2006-01-02")
 		run := func(fault func(c *vhook.Call)) (calls []vhook.Call, dir string, pv any, stack string) {
 			dir = vuFreshDir(base)
 			vuWriteFiles(dir, files)
 			vuSetMode(dir, mode)
+			if oldLock != "" {
+				lp := filepath.Join(dir, "upload", lockWeek+".json.lock")
+				os.MkdirAll(filepath.Dir(lp), 0777)
+				if oldLock == "dir" {
+					os.MkdirAll(filepath.Join(lp, "keep"), 0777)
+				} else {
+					os.WriteFile(lp, nil, 0666)
+				}
+				old := time.Now().Add(-72 * time.Hour)
+				os.Chtimes(lp, old, old)
+			}
 			ctl := vhook.New()
 			ctl.KeepLog = true
 			ctl.TickBudget = 5_000_000
+			ctl.CallBudget = 50000
 			ctl.Plan = fault
 			ctl.PostFn = func(int, string, []byte) (int, error) { return status, nil }
 			u := vuUploader(dir, cfg, "v1.2.3", "http://upload.test/upload", start)
@@ -54,6 +70,10 @@ func TestVerifC05Uploader(t *testing.T) {
 				// what upload.Run does around the uploader: recover panics
 				defer func() {
 					if r := recover(); r != nil {
+						switch r.(type) {
+						case vhook.BudgetExceeded, vhook.Deadlock:
+							panic(r) // not a panic of the uploader: the harness ending an unbounded loop
+						}
 						vstats.Label("note:panic-recovered-by-Run")
 					}
 				}()
